@@ -19,3 +19,17 @@ H("c19_scopes", "C19", "seq", ["harness/c19_scopes.cc"], sdk=C19_SDK,
        "each into harness exporters (simple processors, pull reader); oracle: exactly the scopes enabled by the first matching rule (else the default) arrive, once, with their own "
        "identity; plus every ordered pair of (name, version, schema[, logger name, attributes]) requests under three configurators: same object iff equal in every component",
   design_ref="5/C19")
+# The synchronous gauges and the scope attributes of tracers / meters only exist under ABI v2: the same sources (and
+# the SDK) compiled a second time with the ABI macro redefined (same flags as c17_syncgauge, so the SDK objects are shared).
+C19_ABI2 = ["-fno-access-control", "-UOPENTELEMETRY_ABI_VERSION_NO", "-DOPENTELEMETRY_ABI_VERSION_NO=2"]
+H("c19_names_abi2", "C19", "seq", ["harness/c19_names.cc", "harness/c19_noregex.cc"], sdk=C19_SDK, cxxflags=C19_ABI2,
+  args={"quick": ["--kinds=gauges"], "thorough": ["--kinds=gauges"]},
+  what="ABI v2 build: the name / unit generator of c19_names through Meter::CreateInt64Gauge / CreateDoubleGauge (core sets for both, byte sweeps for one (thorough: both), "
+       "exact heap blocks); same oracle, default aggregation of a gauge = last value",
+  design_ref="5/C19")
+H("c19_scopes_abi2", "C19", "seq", ["harness/c19_scopes.cc"], sdk=C19_SDK, cxxflags=C19_ABI2,
+  args={"quick": ["--rules=3", "--signals=2"], "thorough": ["--rules=4", "--signals=2"]},
+  what="ABI v2 build: c19_scopes for tracers and meters with scope attributes (GetTracer / GetMeter(name, version, schema, attributes)): the attribute matcher of the "
+       "configurator now decides for all signals, every instrument kind incl. the two synchronous gauges on enabled / disabled meters, and the identity pairs run over "
+       "{name} x {version} x {schema} x {no attributes as nullptr, as empty iterable, k=1, k=2, j=1}",
+  design_ref="5/C19")
